@@ -26,7 +26,7 @@ import (
 
 const modPath = "github.com/ElrondNetwork/elrond-vm-common"
 
-var rewritePkgs = []string{"container", "atomic", "builtInFunctions"}
+var rewritePkgs = []string{"container", "atomic", "builtInFunctions", "parsers"}
 
 var siteCount int
 var fileCount int
